@@ -49,7 +49,8 @@ func (env *e2eEnv) middleware(spec mwSpec) frugal.ServiceMiddleware {
 			}
 			if p != nil && isPing && len(res) == 2 {
 				// what this middleware sees coming back from the inside
-				seen := "<error>"
+				// with an error the value still is what the inside returned: a string, if only an empty one
+				seen := fmt.Sprintf("<error, value %T %q>", res[0], fmt.Sprint(res[0]))
 				if res.Error() == nil {
 					seen, _ = res[0].(string)
 				}
@@ -553,6 +554,12 @@ func (g *e2eGen) sizePlan(p *callPlan) {
 	deltas := []int{-2, -1, 0, 1, 2, 5, 700}
 	which := tp.Intn("size", 3) // 0: request side, 1: response side, 2: both small
 	d := deltas[tp.Intn("size", len(deltas))]
+	// where the bulk of a reply sits: in the result (default), in a response header the handler sets, or
+	// half of it in the correlation id (which every reply, the error replies included, echoes)
+	p.bulk = tp.Intn("bulk", 4)
+	if p.bulk == 3 && which == 1 && respLimit > 0 && (reqLimit == 0 || reqLimit >= respLimit) {
+		p.cid = "cid-" + strings.Repeat("c", respLimit*11/20)
+	}
 	// the exact frame sizes depend on the op id, which exists only once the
 	// FContext has been created: the payload is shaped at invoke time
 	p.shape = func(hdr map[string]string) { g.shape(p, hdr, which, d, reqLimit, respLimit) }
@@ -595,7 +602,12 @@ func (g *e2eGen) shape(p *callPlan, hdr map[string]string, which, d, reqLimit, r
 	} else if which == 1 && respLimit > 0 {
 		target := respLimit + d
 		ok := false
-		if p.method == "blob" {
+		if p.bulk == 2 {
+			ok = grow(target, func() int { return g.replyFrameSize(p, hdr["_opid"]) }, func(n int) { p.respHdr["rbig"] = fill(n) })
+			if ok {
+				g.rc.Fault("bulk-of-the-reply-in-a-response-header")
+			}
+		} else if p.method == "blob" {
 			ok = grow(target, func() int { return g.replyFrameSize(p, hdr["_opid"]) }, func(n int) { p.ret = []byte(fill(n)) })
 		} else if p.method == "mixed" {
 			ok = grow(target, func() int { return g.replyFrameSize(p, hdr["_opid"]) }, func(n int) { p.ret.(*simsvc.Mixed).Pad = fill(n) })
@@ -720,7 +732,7 @@ func e2eCheck(rc *RunCtx, env *e2eEnv, plans []*callPlan, cli, prov, srv, added 
 			for i := len(ord) - 1; i >= 0; i-- {
 				m := ord[i]
 				if isErr {
-					wantSaw = append(wantSaw, m.name+"=<error>")
+					wantSaw = append(wantSaw, m.name+`=<error, value string "">`)
 				} else {
 					wantSaw = append(wantSaw, m.name+"="+val)
 				}
